@@ -121,6 +121,7 @@ def serialize_constraint(ctc: Constraint) -> str:
     ctc_str = re.sub(fr'\b{ASTOperation.NOT.value}\b', 'not', ctc_str)
     ctc_str = re.sub(fr'\b{ASTOperation.AND.value}\b', '&&', ctc_str)
     ctc_str = re.sub(fr'\b{ASTOperation.OR.value}\b', '||', ctc_str)
+    ctc_str = re.sub(fr'\b{ASTOperation.XOR.value}\b', 'xor', ctc_str)
     ctc_str = re.sub(fr'\b{ASTOperation.IMPLIES.value}\b', '=>', ctc_str)
     ctc_str = re.sub(fr'\b{ASTOperation.EQUIVALENCE.value}\b', '<=>', ctc_str)
     ctc_str = re.sub(fr'\b{ASTOperation.REQUIRES.value}\b', '=>', ctc_str)
